@@ -1,18 +1,23 @@
+import importlib.util, os
+_spec = importlib.util.spec_from_file_location("c04", os.path.join(os.path.dirname(os.path.abspath(__file__)), "c04.py"))
+_m = importlib.util.module_from_spec(_spec)
+_spec.loader.exec_module(_m)
 P = "github.com/tochemey/goakt/v4/actor."
 SUB = {"(*" + P + "PID).dispatchOne": P + "vC01_dispatchOne",
        "(*" + P + "dispatcher).schedule": P + "vC01_schedule",
        "(*" + P + "worker).reschedule": P + "vC01_reschedule"}
-CHECK = {
-    "id": "C02",
-    "packages": ["./actor"],
-    "harness": ["actor/zz_verif_c01.go"],
-    "replace": [{"file": "actor/pools.go", "old": "const contextPoolSize = 8192", "new": "const contextPoolSize = 2"}],
-    "entries": [
-        {"fn": P + "vC02_quiescence", "replay": "model-only", "cover_optional": ("pending-at-quiescence",)},
-        {"fn": P + "vC02_throughput1", "replay": "model-only", "cover_optional": ("pending-at-quiescence",)},
-    ],
-    "opts": {"rounds": 3, "unwind": 4, "unwind_mode": "assume", "substitute": SUB},
-    "stop": list(SUB.keys()),
-    "explanation": "PID.doReceive, runTurn, finishOrReclaim, dispatchState.*, real UnboundedMailbox (Enqueue/Dequeue/IsEmpty, context pool) under solver-chosen interleavings; handler substituted by a ghost recorder; ready queue abstracted to a token channel. Asserts at-most-once handling, per-sender order, and at quiescence: pending message => actor scheduled (no lost wake-up).",
-    "bounds": {"threads": "senders 2+1 messages / 2 messages, 2 workers (1-2 turns)", "rounds": 3, "throughput": "2 and 1", "context pool": 2},
-}
+_own = {"substitute": SUB, "feasibility": True, "unwind": 4}
+CHECK = dict(_m.CHECK)
+CHECK["id"] = "C02"
+CHECK["harness"] = ["actor/zz_verif_c01.go", "actor/zz_verif_c04.go"]
+CHECK["entries"] = [
+    {"fn": P + "vC02_quiescence", "replay": "model-only", "cover_optional": ("pending-at-quiescence",), "opts": _own},
+    {"fn": P + "vC02_throughput1", "replay": "model-only", "cover_optional": ("pending-at-quiescence",), "opts": _own},
+] + list(_m.CHECK["entries"])
+CHECK["stop"] = list(SUB.keys())
+CHECK["explanation"] = ("PID.doReceive, runTurn, finishOrReclaim, dispatchState.*, real UnboundedMailbox (Enqueue/Dequeue/IsEmpty, context pool) under solver-chosen "
+                        "interleavings; handler substituted by a ghost recorder; ready queue abstracted to a token channel. Asserts at-most-once handling, per-sender "
+                        "order, and at quiescence: pending message => actor scheduled (no lost wake-up). The other mailbox implementations named by the property "
+                        "(fair, segmented, non-blocking bounded, bounded priority, priority intake) are covered by the mailbox scenario of C04 (2 producers, "
+                        "1 consumer): every accepted message is dequeued exactly once. Stash: C13.")
+CHECK["bounds"] = {"dispatch": "senders 2+1 messages / 2 messages, 2 workers (1-2 turns), 3 rounds, throughput 2 and 1, context pool 2", "mailboxes": _m.CHECK["bounds"]}
